@@ -84,6 +84,10 @@ func (r *Router) route(s Sender, p stanza.Packet) {
 
 // SendMissingStz sends all stanzas that did not reach the server, according to the response to an ack request (see XEP-0198, acks)
 func SendMissingStz(lastSent int, s Sender, uaq *stanza.UnAckQueue) error {
+	if uaq == nil {
+		// No stream management queue (SM not negotiated): nothing can be missing
+		return nil
+	}
 	uaq.RWMutex.Lock()
 	if len(uaq.Uslice) <= 0 {
 		uaq.RWMutex.Unlock()
